@@ -15,6 +15,10 @@ HCL = {
     "ok_err": "register cC { n:8 = 0; } c_n = C_n + 1; pc = 0; Stat = [C_n == 1 : STAT_INS; 1 : STAT_AOK];\n",
     "div": "register cC { n:8 = 0; } c_n = C_n + 1; wire x:8; x = 8 / (2 - C_n); pc = 0; Stat = STAT_AOK;\n",
     "rej": "wire a:4; a = 0b11111; pc = 0; Stat = STAT_AOK;\n",
+    # bubbles (Stat = STAT_BUB, which does not stop a run) for six cycles, then halts: the timeout must count those cycles too
+    "ok_bub": "register cC { n:8 = 0; } c_n = C_n + 1; pc = 0; Stat = [C_n == 6 : STAT_HLT; 1 : STAT_BUB];\n",
+    # a wire of 83 bits (and none wider): the table of -d has a column as wide as the widest value
+    "ok_wide83": "register cC { n:8 = 0; } c_n = C_n + 1; wire big:83; big = 0x7ffffffffffffffffffff; pc = 0; Stat = [C_n == 2 : STAT_HLT; 1 : STAT_AOK];\n",
     "syn": "wire ;\n",
     # parse errors at the very end of the file, the last token followed by blanks of more than one byte or a comment
     "syn_nbsp": "pc = 0;\nStat =\u00a0# TODO",
@@ -37,7 +41,7 @@ HCL_BYTES = {
     "ok_cr": b"register cC { n:8 = 0; }\r# a comment that ends at the carriage return\rc_n = C_n + 1; // another\rpc = 0;\rStat = [C_n == 2 : STAT_HLT; 1 : STAT_AOK];\r",
 }
 # cycles until the program stops by itself (None = never), error banner, abort cycle
-STOP = {"ok_halt": (3, "halted"), "ok_run": (None, None), "ok_err": (2, "error"), "div": (None, None),
+STOP = {"ok_bub": (7, "halted"), "ok_wide83": (3, "halted"), "ok_halt": (3, "halted"), "ok_run": (None, None), "ok_err": (2, "error"), "div": (None, None),
         "ok_latin1": (3, "halted"), "ok_cr": (3, "halted"), "ok_big": (3, "halted")}
 ABORT_AT = {"div": 3}
 
@@ -273,7 +277,7 @@ def generate(binary, seed, count, outfile, workdir):
     with open(outfile, "w", encoding="utf-8") as f:
         for case_index in range(count):
             # positionals
-            hcl = rnd.choice(["ok_halt", "ok_halt", "ok_run", "ok_err", "div", "rej", "syn", "missing", "dir", "syn_nbsp", "syn_wide", "syn_eof", "rej_uni", "ok_latin1", "ok_cr", "ok_big", "syn_0x_eof", "syn_0b_eof", "syn_bom"])
+            hcl = rnd.choice(["ok_halt", "ok_halt", "ok_run", "ok_err", "div", "rej", "syn", "missing", "dir", "syn_nbsp", "syn_wide", "syn_eof", "rej_uni", "ok_latin1", "ok_cr", "ok_big", "syn_0x_eof", "syn_0b_eof", "syn_bom", "ok_bub", "ok_bub", "ok_wide83"])
             traw = rnd.choice(TIMEOUTS + ["３", "٣", "3 ", "+", "+0", "007", "00000000004294967295", "-0", "++3"])
             if hcl == "ok_run" and traw in ("4294967295", "00000000004294967295"):
                 hcl = "ok_halt"        # a non-halting program with a 2^32-1 budget would run for hours
